@@ -154,3 +154,17 @@ func VerifH02aRedirects() {
 	}
 	verifrt.Observe("redir", w.status, w.Header().Get("Location"))
 }
+
+// VerifH02bHiddenIndexPage: a hidden file that is also its directory's index page is not returned
+// for any spelling of the directory or of the file itself.
+func VerifH02bHiddenIndexPage() {
+	root := zzSite()
+	fs := FileServer{Root: http.Dir(root), Hide: []string{"/d/i"}, IndexPages: []string{"i"}}
+	p := zzReqPath(4, "/.di")
+	method := []string{"GET", "HEAD"}[verifrt.Choose("method", 2)]
+	r := &http.Request{Method: method, URL: &url.URL{Path: p}, Header: http.Header{}, Host: "h"}
+	w := &zzClient{}
+	status, _ := fs.ServeHTTP(w, r)
+	verifrt.Assert(!strings.Contains(string(w.body), "I"), "hidden-index-page-never-returned")
+	verifrt.Observe("hidden-index", status, w.status)
+}
